@@ -23,11 +23,11 @@ RULE = ("programs from vf.gen.ProgGen (all action/message API styles, typed fiel
         "distinct by hash of the program shape")
 ASSUMPTIONS = ["timestamps and uuids are not compared", "field values restricted to the JSON-native domain",
                "no failing serializers or destinations (owned by C07/C08/C13)"]
-BATCH = 12
+BATCH = 50
 
 
 def plan(tier, seed):
-    n = 6000 if tier == "quick" else 200000
+    n = 12000 if tier == "quick" else 200000
     return [{"seed": seed, "lo": i, "hi": min(n, i + BATCH), "tier": tier} for i in range(0, n, BATCH)]
 
 
